@@ -243,6 +243,28 @@ def run(ctx) -> None:
         ctx.check("R1", f is not None and f in read, f"legacy part {{{part}}} -> field '{f}' which the parser reads", f"v1: part '{part}' is not mapped to a field that is read back",
                   f"field={f}, read={sorted(x for x in read if x)}", loc="src/bumpver/v1patterns.py")
 
+    # the pinned calendar is the parsed calendar, field by field (v1 _ver_to_cal_info is positional)
+    vc = prog.function("v1version._ver_to_cal_info")
+    ctx.visit(vc.fq)
+    ctor = [c for c in ast.walk(vc.node) if isinstance(c, ast.Call) and unparse(c.func).endswith("V1CalendarInfo")]
+    ctx.require(len(ctor) == 1, "v1 _ver_to_cal_info: V1CalendarInfo constructor not found")
+    cal_fields = prog.klass("version.V1CalendarInfo").fields
+    args = dict(zip(cal_fields, ctor[0].args))
+    args.update(shapes.kwargs_of(ctor[0]))
+    ctx.floor("R1", "calendar fields carried over by v1 _ver_to_cal_info", len(args), 7)
+    for f in cal_fields:
+        e = args.get(f)
+        ctx.check("R1", e is not None and unparse(e) == f"{vc.params[0]}.{f}", f"v1 _ver_to_cal_info: {f} := parsed {f}",
+                  f"v1version._ver_to_cal_info: calendar field '{f}' is filled from another field (--pin-date renders a different date)",
+                  f"{f} = {unparse(e) if e is not None else None}", loc=vc.loc(ctor[0]), witness={"version": "v2021.03.09.0001", "flag": "--pin-date"})
+    ci = prog.klass("version.V1VersionInfo").fields
+    ctx.check("R1", ci[:len(cal_fields)] == cal_fields, "V1VersionInfo starts with the V1CalendarInfo fields (the bump replaces them by name)", "version.V1VersionInfo: calendar fields differ from V1CalendarInfo", "", loc="src/bumpver/version.py")
+    # the reader must not reject a value the renderer can print: no range test inside the field parser may be
+    # satisfiable by a value of the field's own domain
+    cal = formats.calendar_domains(prog, "v1version.cal_info", (2000, 2099))
+    pfn = prog.function("v1version._parse_field_values")
+    _reader_range_rule(ctx, pfn, {k: v[0] for k, v in cal.items()}, "R1")
+
     # ---------------------------------------------------------------- R2
     from checks.c01 import full_match_rule
     full_match_rule(ctx, "v1version", "R2")
@@ -383,3 +405,37 @@ def _predicate(ctx, fn, expr: ast.AST) -> T.Tuple[str, T.Callable[[str], bool], 
         return bool((bf.bits >> idx) & 1)
 
     return pat_vars.pop(), evaluator, bf
+
+
+def _reader_range_rule(ctx, fn, domains: T.Dict[str, T.Any], rule: str) -> None:
+    """Explicit raises in a field parser must not be conditioned on `field OP const` tests that a value of the
+    field's rendering domain satisfies (the renderer could print a version the reader then refuses)."""
+    cfg = ctx.cfgs.get(fn.fq)
+    pc = PathCond(cfg, max_atoms=24)
+    raises = [n for n in cfg.nodes if n.kind == "stmt" and isinstance(n.ast, ast.Raise) and n.id in cfg.reachable()]
+    n_checked = 0
+    for n in raises:
+        r = pc.reach(n.id).drop_unused()
+        for a in r.atoms:
+            tree = ast.parse(a, mode="eval").body
+            cs = shapes.compare_shape(tree)
+            if cs is None:
+                continue
+            op, l, rr = cs
+            if isinstance(l, ast.Constant) and isinstance(rr, ast.Name):
+                l, rr, op = rr, l, shapes.mirror(op)
+            if not (isinstance(l, ast.Name) and l.id in domains and isinstance(rr, ast.Constant) and isinstance(rr.value, int)):
+                continue
+            dom = domains[l.id]
+            if dom[0] != "ints":
+                continue
+            n_checked += 1
+            for pol in (True, False):
+                if not r.implies(BF.var(a) if pol else ~BF.var(a)):
+                    continue
+                eff = op if pol else {"<": ">=", "<=": ">", ">": "<=", ">=": "<", "==": "!=", "!=": "=="}[op]
+                sat = [v for v in range(dom[1], dom[2] + 1) if {"<": v < rr.value, "<=": v <= rr.value, ">": v > rr.value, ">=": v >= rr.value, "==": v == rr.value, "!=": v != rr.value}[eff]]
+                ctx.check(rule, not sat, f"{fn.fq}: raise at L{n.lineno} under `{l.id} {eff} {rr.value}` is unreachable for rendered values of '{l.id}'",
+                          f"{fn.fq}: the reader rejects a value of '{l.id}' that the renderer prints",
+                          f"`raise` at L{n.lineno} is taken when {l.id} {eff} {rr.value}; the field's domain {dom[1]}..{dom[2]} contains {sat[:3]}", loc=fn.loc(n.ast), witness={l.id: sat[:3]})
+    ctx.ok(rule, f"{fn.fq}: {len(raises)} raise site(s), {n_checked} range test(s) examined")
